@@ -398,8 +398,20 @@ def skip_reports(check: Check, repo: Repo, rule: str = "SKIP-REPORTS") -> None:
                     body = getattr(block, "orelse", [])
                 idx = body.index(c) if c in body else 0
                 ok = any(isinstance(x, ast.Call) and last_attr(x) == "report_error" for s in body[:idx] for x in ast.walk(s))
+                why = "follows a report_error in the same block"
+                if not ok and isinstance(block, ast.If) and c in block.body:
+                    # `if not is_X_type(entry): continue` is not silent when the same kind test guards a report in
+                    # another method of the validator (the entry is reported where its owner is validated)
+                    preds = {call_name(x) for x in ast.walk(block.test) if isinstance(x, ast.Call) and call_name(x).startswith("is_") and call_name(x).endswith("_type")}
+                    for other in ctx.methods().values():
+                        if other is fn:
+                            continue
+                        for i2 in walk_body(other):
+                            if isinstance(i2, ast.If) and preds & {call_name(x) for x in ast.walk(i2.test) if isinstance(x, ast.Call)} and any(
+                                    isinstance(x, ast.Call) and last_attr(x) == "report_error" for s in i2.body for x in ast.walk(s)):
+                                ok, why = True, f"the same kind test ({sorted(preds)[0]}) is reported in {other.name}"
                 check.ob(rule, c, f"continue in {fn.name} (line +{c.lineno - fn.lineno})", ok,
-                         "follows a report_error in the same block" if ok else
+                         why if ok else
                          "skips the element without reporting anything: a violation on it is never detected")
                 n += 1
     check.floor(rule, 3, "continue statements in SchemaValidationContext")
@@ -730,3 +742,62 @@ def reserved_names(check: Check, repo: Repo, rule: str = "RESERVED-NAME") -> Non
     calls = [c for c in walk_body(vt) if isinstance(c, ast.Call) and call_name(c).split(".")[-1] == "validate_name"] if vt is not None else []
     if not calls:
         raise AnalysisError("validate_types: validate_name(type_) call not found")
+
+
+def unvalidated_elements(check: Check, repo: Repo, rule: str = "UNVALIDATED-ELEMENT") -> None:
+    from rules.language_rules import norm_facts
+
+    check.rule(
+        rule,
+        "schema validation inspects schemas that are not valid yet: the entries of `<type>.interfaces` and of "
+        "`<union>.types` may be anything (a wrapped type, None, a type of the wrong kind) until the validator itself has "
+        "checked them. In type/validate.py an attribute is read from a loop or comprehension variable ranging over such "
+        "a collection only under the must-fact of a kind predicate on that variable (is_interface_type(x), "
+        "is_object_type(x) ...); getattr(x, name, default) needs none. `{i.name for i in type_.interfaces}` raises "
+        "AttributeError for `interfaces=[Node, GraphQLList(Node)]` instead of reporting the entry",
+    )
+    from sa.mtypes import MTypes
+
+    mt = MTypes.get(repo)
+    mod = repo.mod("type.validate")
+    n = 0
+    for fn in mod.functions():
+        if isinstance(fn, ast.Lambda):
+            continue
+        binders: list[tuple[str, ast.AST]] = []
+        # locals that hold such a collection (`a, b = type_.interfaces, iface.interfaces`; `member_types = union.types`)
+        holders: set[str] = set()
+        for s_ in walk_body(fn):
+            if isinstance(s_, ast.Assign) and len(s_.targets) == 1:
+                t, v = s_.targets[0], s_.value
+                pairs = list(zip(t.elts, v.elts)) if isinstance(t, ast.Tuple) and isinstance(v, ast.Tuple) and len(t.elts) == len(v.elts) else [(t, v)]
+                for tt, vv in pairs:
+                    if isinstance(tt, ast.Name) and isinstance(vv, ast.Attribute) and vv.attr in ("interfaces", "types"):
+                        holders.add(tt.id)
+
+        def unchecked(it: ast.AST) -> bool:
+            if "language.ast" in (mt.type_of(it) or ""):
+                return False  # a tuple of NamedTypeNode built by the parser, not a collection of the type system
+            return (isinstance(it, ast.Attribute) and it.attr in ("interfaces", "types")) or (isinstance(it, ast.Name) and it.id in holders)
+
+        for x in walk_body(fn):
+            gens = x.generators if isinstance(x, (ast.ListComp, ast.SetComp, ast.DictComp, ast.GeneratorExp)) else []
+            for g in gens:
+                if isinstance(g.target, ast.Name) and unchecked(g.iter):
+                    binders.append((g.target.id, x))
+            if isinstance(x, ast.For) and isinstance(x.target, ast.Name) and unchecked(x.iter):
+                binders.append((x.target.id, x))
+        if not binders:
+            continue
+        flow = FactFlow(CFG(fn))
+        for var, scope in binders:
+            for a in ast.walk(scope):
+                if not (isinstance(a, ast.Attribute) and isinstance(a.ctx, ast.Load) and isinstance(a.value, ast.Name) and a.value.id == var):
+                    continue
+                n += 1
+                facts = norm_facts(flow.facts_at(a))
+                tested = sorted(t for t, p in facts if p and t.startswith("is_") and t.endswith(f"({var})"))
+                check.ob(rule, a, f"{qualname_of(a)}: `{unparse(a)}` on an entry of `{unparse(scope.iter) if isinstance(scope, ast.For) else '...'}`", bool(tested),
+                         f"under {tested[0]}" if tested else f"`{var}` has not been kind-checked here: a malformed entry raises AttributeError out of validate_schema")
+    if n < 3:
+        raise AnalysisError("UNVALIDATED-ELEMENT: element attribute reads not found in type/validate.py")
